@@ -432,4 +432,34 @@ theorem reload_sees_saved_bytes (fmt : R → List UInt8) (env : Env R) (hd : env
     have := resolve_of_rep (parsers env pfuel dec) b'.bytes b'.doc.st h2.rep dr.st.refs false id v this rfuel
     rw [hst] at this; exact this
 
+/-- **C09 at byte level, reload, in terms of the state.** Whatever state a byte-level history has reached
+    (`HInv`: the bytes represent it), a successful save produces bytes which the byte-level open path opens and in
+    which the byte-level resolver returns, for every number with a pending value (the info dictionary of the
+    trailer included), that value. -/
+theorem reload_sees_pending_bytes (fmt : R → List UInt8) (env : Env R) (hd : env.decrypt = none) (pfuel : Nat)
+    (dec : Dict R → List UInt8 → Out (List UInt8)) (hdec : NoFilter dec) (b0 b : BDoc R) (chain0)
+    (hb : BaseOK b0.doc chain0) (hv : BaseVals fmt env.parseReal b0.doc) (h1 : HInv fmt env pfuel dec b0 b)
+    (b' : BDoc R) (i : SaveInfo) (hs : saveB fmt b = (b', .ok i))
+    (hsmall : b'.bytes.length ≤ fileMax) (hpf : 3 * b'.bytes.length ≤ pfuel)
+    (fuel : Nat) (hfuel : b'.doc.st.secs.length + 1 ≤ fuel) (rfuel : Nat) :
+    ∃ t T, openB env pfuel dec fuel b'.bytes = .ok (b0.doc.st.start, t, T) ∧ t.length = i.size + 1 ∧
+      (∀ id v g, chLookup (prep b.doc).st2.changes id = some (v, g) →
+        ∃ o, resolveB env pfuel dec (rfuel + 2) b'.bytes b0.doc.st.start t id = .ok o ∧ Denotes b'.bytes o v) := by
+  have hstep : stepB fmt b .save = (b', .saved i) := by simp [stepB, hs]
+  have h2 := hinv_stepB fmt env hd pfuel dec hdec b0 b chain0 hb hv h1 .save
+    (by intro b'' o hs' hno; rw [hs] at hs'; cases hs'; exact absurd rfl (hno i))
+    (by rw [hstep]; exact hsmall) (by rw [hstep]; exact hpf)
+  rw [hstep] at h2
+  obtain ⟨s1, _, _⟩ := saveB_cases fmt _ _ _ hs
+  obtain ⟨t, hrl, facts⟩ := reload_after_save _ _ (layoutOf_pos fmt b) b0.doc b.doc b'.doc chain0 i hb h1.inv s1 false
+  obtain ⟨T, hopen⟩ := open_of_rep (parsers env pfuel dec) b'.bytes b'.doc.st h2.rep false _ hrl fuel hfuel
+  have hst : b'.doc.st.start = b0.doc.st.start := h2.inv.start_eq
+  rw [hst] at hopen
+  obtain ⟨_, _, _, _, _, _, _, _, hsize, _, _⟩ := save_ok_spec _ _ _ _ _ s1
+  refine ⟨t, T, hopen, by rw [facts.len, hsize], ?_⟩
+  intro id v g hc
+  have := facts.pending id v g hc false
+  have := resolve_of_rep (parsers env pfuel dec) b'.bytes b'.doc.st h2.rep t false id v this rfuel
+  rw [hst] at this; exact this
+
 end C09Bytes
